@@ -126,6 +126,19 @@ func hostMutations(o proto4.Object, raw bool) []hostMut {
 		}}, hostMut{"length-longer", func(e *sim.Env, c *c10Rig, o proto4.Object, raw []byte) bool {
 			o.(*proto4.RPCReadSectorResponse).DataLength += 64
 			return true
+		}}, hostMut{"shorter-range-with-its-own-genuine-proof", func(e *sim.Env, c *c10Rig, o proto4.Object, raw []byte) bool {
+			// a coherent lie: the answer to a shorter read of the same sector
+			m := o.(*proto4.RPCReadSectorResponse)
+			if c.readLen < 128 {
+				return false
+			}
+			l := uint64(e.Range(1, int(c.readLen/64)-1)) * 64
+			sector := testSector(c.readSector).data
+			start, end := c.readOff/proto4.LeafSize, (c.readOff+l+proto4.LeafSize-1)/proto4.LeafSize
+			segStart, segEnd := proto4.SectorSubtreeRange(start, end)
+			m.Proof = proto4.BuildSectorProof(sector[segStart*proto4.LeafSize:segEnd*proto4.LeafSize], start, end, proto4.CachedSectorSubtrees(sector))
+			m.DataLength = l
+			return true
 		}})
 	case *proto4.RPCWriteSectorResponse:
 		ms = append(ms, hostMut{"root-flip", func(e *sim.Env, c *c10Rig, o proto4.Object, raw []byte) bool {
@@ -265,6 +278,9 @@ type c10Rig struct {
 	otherHashes []types.Hash256
 	otherSig    types.Signature
 	replTarget  types.Currency
+	// parameters of the read in flight (for coherent lies about it)
+	readSector       int
+	readOff, readLen uint64
 }
 
 // c10Call is one renter RPC with its binding predicate.
@@ -315,9 +331,11 @@ func (c *c10Rig) calls() []c10Call {
 	e := c.e
 	return []c10Call{
 		{"read", proto4.RPCReadSectorID, func(c *c10Rig, mutated string) error {
-			s := testSector(e.Intn(4))
+			c.readSector = e.Intn(4)
+			s := testSector(c.readSector)
 			off := uint64(e.Intn(1000)) * 64
 			l := uint64(e.Range(1, 64)) * 64
+			c.readOff, c.readLen = off, l
 			var buf bytes.Buffer
 			_, err := rhp4.RPCReadSector(ctx, c.tr, c.prices, c.token(c.acctKey), &buf, s.root, off, l)
 			if err == nil && !bytes.Equal(buf.Bytes(), s.data[off:off+l]) {
@@ -465,12 +483,32 @@ func (c *c10Rig) calls() []c10Call {
 func runC10(e *sim.Env) {
 	var mutate func(step int, st simrhp.Step, o proto4.Object, raw []byte)
 	base := &c08Rig{committed: map[types.FileContractID]types.V2FileContract{}, balances: map[proto4.Account]types.Currency{}, poolBal: map[proto4.Account]types.Currency{}, attached: map[proto4.Account][]proto4.Account{}, recorded: map[string][]proto4.Object{}}
-	base.rhpRig = newRHPRig(e, "C10", simrhp.TypedRelay(func(n int, id types.Specifier, step int, st simrhp.Step, o proto4.Object, raw []byte) simrhp.Action {
+	// countersign: after a corrupted host message, the Byzantine host does not
+	// run the honest server for the rest of the exchange but countersigns
+	// whatever revision the renter agreed to sign
+	countersign, corrupted := false, false
+	var signer *fundAndSign
+	base.rhpRig = newRHPRig(e, "C10", simrhp.TypedRelayAnswering(func(n int, id types.Specifier, step int, st simrhp.Step, o proto4.Object, raw []byte) simrhp.Action {
 		if mutate != nil && !st.FromRenter {
 			mutate(step, st, o, raw)
 		}
+		if countersign && corrupted && st.FromRenter && step > 0 && raw == nil {
+			return simrhp.Impersonate
+		}
 		return simrhp.Pass
+	}, func(n int, id types.Specifier, step int, renterMsg proto4.Object) proto4.Object {
+		sig := base.hostKey.SignHash(signer.lastHash)
+		switch renterMsg.(type) {
+		case *proto4.RPCAppendSectorsSecondResponse:
+			return &proto4.RPCAppendSectorsThirdResponse{HostSignature: sig}
+		case *proto4.RPCFreeSectorsSecondResponse:
+			return &proto4.RPCFreeSectorsThirdResponse{HostSignature: sig}
+		case *proto4.RPCReplenishAccountsSecondResponse:
+			return &proto4.RPCReplenishAccountsThirdResponse{HostSignature: sig}
+		}
+		return nil
 	}))
+	signer = base.signer
 	c := &c10Rig{c08Rig: base}
 	c.contract = c.form(types.Siacoins(20000), types.Siacoins(8000), 120)
 	c.committed[c.contract.ID] = c.contract.Revision
@@ -548,6 +586,31 @@ func runC10(e *sim.Env) {
 			waitQuiet()
 			c.syncFromHost()
 			cases++
+			if applied && !sl.raw && sl.step+1 < len(simrhp.Flows[call.rpc]) && simrhp.Flows[call.rpc][sl.step+1].FromRenter {
+				// the same corruption from a host that then countersigns
+				// whatever the renter signs instead of checking it
+				applied2 := false
+				mutate = func(step int, st simrhp.Step, o proto4.Object, raw []byte) {
+					if applied2 || step != sl.step || raw != nil {
+						return
+					}
+					if sl.mut.fn(e, c, o, raw) {
+						applied2, corrupted = true, true
+					}
+				}
+				countersign, corrupted = true, false
+				var cerr error
+				e.Guard("C10.panic", "RPC "+call.name+" ("+name+", countersigned)", func() { cerr = call.run(c, name+"+countersigned") })
+				mutate, countersign, corrupted = nil, false, false
+				waitQuiet()
+				c.syncFromHost()
+				cases++
+				if applied2 {
+					e.Fault("host-" + call.name + "-" + sl.mut.name + "+countersigned")
+					e.Shape(call.name, name+"+cs", fmt.Sprint(cerr != nil))
+					e.Logf("%s with host response corrupted (%s) and countersigned -> err=%v", call.name, name, cerr != nil)
+				}
+			}
 			if applied {
 				e.Fault("host-" + call.name + "-" + sl.mut.name)
 				e.Shape(call.name, name, fmt.Sprint(merr != nil))
@@ -567,7 +630,7 @@ func runC10(e *sim.Env) {
 func init() {
 	register(&Prop{
 		ID: "C10", Run: runC10, Quick: 120, Thorough: 3000, Level: "fault_enumeration",
-		Rule:        "each run walks a complete table: for every renter RPC (read, write, verify, append, free, sector roots, fund accounts, replenish accounts, latest revision, form contract) an undisturbed exchange is probed for its host->renter messages, then the RPC is repeated once per (message, field, corruption) with the real server behind a typed relay acting as the Byzantine host: proofs and root lists flipped / truncated / extended / replaced by values of another exchange, lengths and counts changed, data bytes flipped or replaced by another sector's, Merkle roots flipped or left unchanged, host signatures flipped / replayed / genuine-but-over-something-else, accepted flags flipped, deposits above the target or inflated, host inputs dropped, final transaction altered or empty; concrete values (offsets, indices, bits) are drawn; oracle: the call returns an error or the binding predicate holds against the harness's ground truth (sector bytes, real roots, list model, host key, price table); distinct = (rpc, message, corruption, outcome); all runs non-trivial",
+		Rule:        "each run walks a complete table: for every renter RPC (read, write, verify, append, free, sector roots, fund accounts, replenish accounts, latest revision, form contract) an undisturbed exchange is probed for its host->renter messages, then the RPC is repeated once per (message, field, corruption) with the real server behind a typed relay acting as the Byzantine host: proofs and root lists flipped / truncated / extended / replaced by values of another exchange, lengths and counts changed, data bytes flipped or replaced by another sector's, Merkle roots flipped or left unchanged, host signatures flipped / replayed / genuine-but-over-something-else, accepted flags flipped, deposits above the target or inflated, a shorter read answered coherently (shorter length with its own genuine proof), host inputs dropped, final transaction altered or empty; every corruption of a message that the renter answers with its signature is run twice: in front of the honest server, and from a host that then countersigns whatever revision the renter signed; concrete values (offsets, indices, bits) are drawn; oracle: the call returns an error or the binding predicate holds against the harness's ground truth (sector bytes, real roots, list model, host key, price table); distinct = (rpc, message, corruption, outcome); all runs non-trivial",
 		Real:        []string{"rhp4 RPC* client functions (the code under test)", "rhp4.Server as the honest core of the Byzantine host", "wallets, chain.Manager, reference contractor and sector store"},
 		Stub:        []string{"transport: simrhp typed relay rewriting host->renter messages", "disk: simdisk.DB"},
 		Assumptions: []string{"renew / refresh responses are corrupted in C16", "account balances and settings are unauthenticated by design and carry no binding claim"},
